@@ -21,7 +21,8 @@ LEVEL = {'text': 'Machine-checked (Coq 8.16, no axioms) theorems over ALL byte l
                  'three extended-numbering escapes, arbitrary filler): the model of ELFFile(stream) succeeds and reports class, byte order and '
                  'every file-header field (C01_ehdr_exact); section header i / program header j are decoded to every encoded field '
                  '(C01_shdr_at_exact, C01_phdr_at_exact); num_sections/num_segments/get_shstrndx incl. e_shnum=0, PN_XNUM, SHN_XINDEX '
-                 '(C01_counts_exact); names, get_section/get_segment objects with their kind, iter_sections/iter_segments in file order with the '
+                 '(C01_counts_exact, thresholds 0xff00/0xffff explicit in C01_escape_thresholds); the machine -> sh_type/p_type dictionary maps obey '
+                 'the gABI processor-range rule and hold the supplements\' codes (C01_machine_sh_types, C01_machine_p_types, C01_machine_anchors); names, get_section/get_segment objects with their kind, iter_sections/iter_segments in file order with the '
                  'type filter = filter (C01_names_exact, C01_section_exact, C01_segment_exact, C01_iter_*_exact); index and name lookups agree '
                  'with the enumeration, last section bearing a name wins (C01_index_agrees, C01_lookup_agrees, C01_lookup_meaning); enum fields '
                  'decode to a name of the dictionary bound to the field or the raw integer (C01_enum_fields, C01_enum_named_or_raw, '
@@ -358,8 +359,8 @@ def expand_big(a):
 # (n sections, name-table index k, m segments): every escape rule at its boundary values.
 # 0xfeff / 0xff00 around SHN_LORESERVE (e_shnum, e_shstrndx), 0xfffe / 0xffff around PN_XNUM (e_phnum),
 # and the thresholds of the OTHER rule for each field (e_phnum = 0xff00, k = 0xffff, n = 0xffff).
-EDGES = [(0xfeff, 0xfefe, 0xfeff), (0xff00, 0xfeff, 0xff00), (0xff01, 0xff00, 0xfffe), (0x10000, 0xffff, 0xffff),
-         (0xffff, 0xfffe, 0x10000)]
+EDGES = [(0xff00, 0xfeff, 0xff00), (0xff01, 0xff00, 0xfffe), (0x10000, 0xffff, 0xffff), (0xfeff, 0xfefe, 2),
+         (0xffff, 0xfffe, 0x10000), (3, 1, 0xfeff)]
 EM_NUM = {'EM_ARM': 40, 'EM_AARCH64': 183, 'EM_X86_64': 62, 'EM_MIPS': 8, 'EM_RISCV': 243}
 
 
@@ -397,6 +398,26 @@ def expand_edge(a):
     return [[is64, le, ehdr, sections, segments, k], total, seed, [[strtab_at, strbody]]]
 
 
+def py_encode(spec):
+    """gABI records packed by struct, used ONLY for the multi-megabyte images (kinds edge/big) to keep the quick
+    tier short; the Coq predicate wf_image still certifies that the assembled bytes carry the abstract image
+    (evaluate insists on wf for these kinds), so a mistake here cannot pass as an in-domain case."""
+    is64, le, ehdr, sections, segments, k = spec
+    e = '<' if le else '>'
+    A = 'Q' if is64 else 'I'
+    eh = (b'\x7fELF' + bytes([2 if is64 else 1, 1 if le else 2, ehdr[0], ehdr[1], ehdr[2]]) + bytes(ehdr[3]) +
+          struct.pack(e + 'HHI' + A * 3 + 'IHHHHHH', *ehdr[4:]))
+    shp = struct.Struct(e + 'II' + A * 4 + 'II' + A * 2)
+    sh = [shp.pack(*h) for _, h in sections]
+    if is64:
+        php = struct.Struct(e + 'IIQQQQQQ')
+        ph = [php.pack(*p) for p in segments]
+    else:
+        php = struct.Struct(e + 'IIIIIIII')
+        ph = [php.pack(p[0], p[2], p[3], p[4], p[5], p[6], p[1], p[7]) for p in segments]
+    return [eh, sh, ph]
+
+
 def expand_anchor(a, anchors):
     """an image of the anchor's machine whose section 1 / segment 0 carries the anchor's code"""
     _, which, idx, is64, le, seed = a
@@ -410,7 +431,7 @@ def expand_anchor(a, anchors):
 def gen(ctx):
     rng = ctx.rng
     cases = []
-    N = ctx.scale(1100, 12000)
+    N = ctx.scale(950, 12000)
     # every class x byte order x table-switching machine at least once, with and without sections
     for is64 in (False, True):
         for le in (False, True):
@@ -430,7 +451,7 @@ def gen(ctx):
         for idx in range(cnt):
             cases.append(('anchor', ['anchor', which, idx, rng.getrandbits(1), rng.getrandbits(1), rng.getrandbits(32)]))
     # extended numbering at the boundary values of every escape rule: real ~0xff00-entry tables
-    for idx in range(len(EDGES)):
+    for idx in range(ctx.scale(4, len(EDGES))):
         cases.append(('edge', ['edge', idx, rng.getrandbits(1), rng.getrandbits(1), rng.getrandbits(32), rng.choice([0, 0, 8])]))
     if ctx.tier == 'thorough':
         for which in ('sections', 'segments', 'sections', 'segments'):
@@ -645,7 +666,13 @@ def evaluate(ctx, cases):
             full.append(b)
         else:
             full.append(expand_big(a) if kind == 'big' else expand_edge(a) if kind == 'edge' else a)
-    encs = drv.batch([['encode', a[0]] for a in full])
+    small = [i for i, (kind, _) in enumerate(cases) if kind not in ('edge', 'big')]
+    encs = [None] * len(full)
+    for i, enc in zip(small, drv.batch([['encode', full[i][0]] for i in small])):
+        encs[i] = enc
+    for i, (kind, _) in enumerate(cases):
+        if encs[i] is None:
+            encs[i] = py_encode(full[i][0])
     imgs = []
     for (kind, a0), a, enc in zip(cases, full, encs):
         img = assemble(a, enc)
@@ -688,6 +715,8 @@ def evaluate(ctx, cases):
         except Exception as e:          # noqa: constructor failure is the answer to every query
             impl = [['err', type(e).__name__] for _ in queries]
         in_domain = wf and kind != 'malformed'
+        if kind in ('edge', 'big') and not wf:
+            raise RuntimeError('C01 harness: a %s image is not certified by wf_image (py_encode or the generator is wrong)' % kind)
         sp = a[0]
         if kind == 'anchor':
             # pseudo-query: the type of section 1 / segment 0 as reported, against the name the supplement fixes
